@@ -168,15 +168,26 @@ func c15Specs(tier string) []*Spec {
 		specs = append(specs, &Spec{Weight: wt, ID: "C15", Name: name, Cfg: cfg, Keys: keys, Vals: bs("x", "y"), MaxDepth: depth, MaxMaint: maint,
 			Alphabet: a.Ops, Oracles: []Oracle{oracleChangeSets()}})
 	}
+	// idempotent re-commits: load an older version, re-apply the next version's writes (SaveVersion of an existing
+	// version with an identical hash succeeds without effect), then go on - a narrow alphabet explored deep enough
+	addResave := func(name string, cfg Cfg, depth int) {
+		a := Alpha{Writes: true, NoRemove: true, Save: true, LoadVersion: true, MaxVersions: 3}
+		specs = append(specs, &Spec{Weight: 8, ID: "C15", Name: name, Cfg: cfg, Keys: bs("a"), Vals: bs("x", "y"), MaxDepth: depth, MaxMaint: 1,
+			Alphabet: a.Ops, Oracles: []Oracle{oracleChangeSets()}})
+	}
 	k2 := bs("a", "b")
 	k3 := bs("a", "ab", "b")
 	if tier == "quick" {
+		addResave("resave/1key/d9", defaultCfg, 9)
+		addResave("resave-nofast/1key/d9", Cfg{Fast: false, Cache: 1000}, 9)
 		add("default/2keys/d6", defaultCfg, k2, 6, 1, 20)
 		add("default/3keys/d5", defaultCfg, k3, 5, 1, 10)
 		add("nofast-cache3/2keys/d5", Cfg{Fast: false, Cache: 3}, k2, 5, 1, 3)
 		add("iv7/2keys/d5", Cfg{Fast: true, IVSet: true, IV: 7}, k2, 5, 1, 3)
 		return specs
 	}
+	addResave("resave/1key/d11", defaultCfg, 11)
+	addResave("resave-nofast/1key/d11", Cfg{Fast: false, Cache: 1000}, 11)
 	add("default/2keys/d8", defaultCfg, k2, 8, 2, 30)
 	add("default/3keys/d7", defaultCfg, k3, 7, 1, 20)
 	add("nofast-cache3/2keys/d7", Cfg{Fast: false, Cache: 3}, k2, 7, 1, 6)
